@@ -878,6 +878,41 @@ Qed.
 Lemma of_list_repr l : repr l (of_list l).
 Proof. split; cbn; auto. Qed.
 
+Lemma firstn_nth_snoc {A} (l : list A) : forall idx dflt, idx < length l ->
+  firstn (idx + 1) l = firstn idx l ++ [nth idx l dflt].
+Proof.
+  induction l as [|x l IH]; intros idx dflt Hi; cbn [length] in Hi; [lia|].
+  destruct idx as [|idx]; cbn [Nat.add firstn nth app]; [reflexivity|].
+  rewrite (IH idx dflt) by lia. reflexivity.
+Qed.
+
+(** copying every position of [o] into a vector of the same size gives [o], whatever the vector held *)
+Lemma copy_loop_eq (o : bs) : forall n idx d,
+  length d = length o -> idx + n = length o -> firstn idx d = firstn idx o ->
+  for_up n idx (fun i d' => put d' i (nth i o false)) d = Ok o.
+Proof.
+  induction n as [|n IH]; intros idx d Hl Hn Hf; cbn [for_up].
+  - assert (idx = length o) by lia. subst idx. rewrite <- Hl in Hf at 1. rewrite !firstn_all in Hf. congruence.
+  - unfold put. assert (Hlt : idx < length d) by lia. apply Nat.ltb_lt in Hlt. rewrite Hlt. cbn [bind].
+    apply Nat.ltb_lt in Hlt. apply IH.
+    + rewrite app_length, firstn_length. cbn [length]. rewrite skipn_length. lia.
+    + lia.
+    + replace (S idx) with (idx + 1) by lia. rewrite firstn_app, firstn_firstn, firstn_length.
+      replace (Nat.min (idx + 1) idx) with idx by lia. replace (idx + 1 - Nat.min idx (length d)) with 1 by lia.
+      cbn [firstn]. rewrite Hf.
+      rewrite (firstn_nth_snoc o idx false) by lia. reflexivity.
+Qed.
+
+Lemma m_assign_bitset_eq d o : m_assign_bitset d o = Ok o.
+Proof.
+  unfold m_assign_bitset. apply copy_loop_eq; [apply vresize_length|lia|reflexivity].
+Qed.
+
+Lemma m_ctor_bitset_eq o : m_ctor_bitset o = Ok o.
+Proof.
+  unfold m_ctor_bitset. apply copy_loop_eq; [apply repeat_length|lia|reflexivity].
+Qed.
+
 Definition step_agree (s : res (bs * outv)) (t : (rbv * outv) + err) : Prop :=
   match s, t with
   | Ok (d', v), inl (r', v') => v = v' /\ repr d' r'
@@ -925,6 +960,8 @@ Proof.
     + unfold r_resize. cbn [rsize rbit]. intros i Hi. unfold m_resize. rewrite vresize_nth. rewrite L.
       apply Nat.ltb_lt in Hi. rewrite Hi. destruct (Nat.ltb_spec i (rsize r)); [apply H; assumption|reflexivity].
   - (* assign *) cbn. split; [reflexivity|]. apply of_list_repr.
+  - (* = std::bitset<N> *) unfold upd. rewrite m_assign_bitset_eq. cbn. split; [reflexivity|]. apply of_list_repr.
+  - (* DynamicBitset( std::bitset<N>) *) unfold upd. rewrite m_ctor_bitset_eq. cbn. split; [reflexivity|]. apply of_list_repr.
   - (* == *) cbn. split; [|exact R]. f_equal. apply repr_eq. exact R.
   - (* &= *)
     destruct (m_and_assign_pw d o) as (d' & E & L' & H'). unfold upd. rewrite E. cbn.
